@@ -6,7 +6,11 @@ W=$(mktemp -d /tmp/asn1c-suite-XXXXXX)
 trap 'rm -rf "$W"' EXIT
 cp -a /repo "$W/repo"
 cd "$W/repo"
-make check -j16 -k > "$W/log" 2>&1 || true
+# The in-tree Makefiles carry absolute paths of /repo (abs_top_srcdir): point them at the copy, drop stale per-test
+# build directories (they symlink to /repo/skeletons), rebuild the copy and test the copy's own binaries and skeletons.
+rm -rf tests/tests-c-compiler/test-check* tests/tests-randomized/.tmp.*
+make -j16 abs_top_srcdir="$W/repo" abs_top_builddir="$W/repo" > "$W/build.log" 2>&1 || { tail -20 "$W/build.log"; echo "BUILD FAILED"; exit 1; }
+make check -j16 -k abs_top_srcdir="$W/repo" abs_top_builddir="$W/repo" 'abs_builddir=$(CURDIR)' > "$W/log" 2>&1 || true
 python3 - "$W/log" <<'P'
 import json,re,sys
 log=open(sys.argv[1],errors='replace').read()
